@@ -66,8 +66,20 @@ def eraseFirstId : List RHost → Nat → List RHost
   | [], _ => []
   | h :: t, id => if h.id == id then t else h :: eraseFirstId t id
 
-/-- `removeHost` -/
+/-- `removeHost` (repaired, KF-C16-1): the by-address entry of the removed host's address is deleted
+only when it still maps to the host id being removed
+(`if ip := h.nodeToNodeAddress().String(); r.hostIPToUUID[ip] == hostID { delete(r.hostIPToUUID, ip) }`;
+for the empty id and a missing entry the Go comparison is true and the delete a no-op, as here) -/
 def Ring.remove (r : Ring) (id : Nat) : Ring × Bool :=
+  match lookup r.byId id with
+  | some h => ({ byId := erase r.byId id,
+                 byIp := if lookup r.byIp h.addr = some id then erase r.byIp h.addr else r.byIp,
+                 list := eraseFirstId r.list id }, true)
+  | none => (r, false)
+
+/-- `removeHost` as it was before the repair of KF-C16-1 (kept for the regression examples only):
+the by-address entry is deleted unconditionally -/
+def Ring.removeOld (r : Ring) (id : Nat) : Ring × Bool :=
   match lookup r.byId id with
   | some h => ({ byId := erase r.byId id, byIp := erase r.byIp h.addr, list := eraseFirstId r.list id }, true)
   | none => (r, false)
